@@ -47,7 +47,7 @@ LEVEL_NOTE = ("PARTIAL: only fault-derived inputs. Structural shapes no storage 
               "reach; the evidence counts which shape classes were hit. Damaged JSON/YAML text that "
               "no longer decodes to an odML-shaped dict is counted as unjudged.")
 DESIGN_REF = "DESIGN.md 4 (C16)"
-ASSUMPTIONS = ["'shaped like an odML dictionary' = root dict whose 'Document' is a dict and whose "
+ASSUMPTIONS = ["'shaped like an odML dictionary' = root dict whose 'Document' is a dict (or empty) and whose "
                "sections / properties entries are, recursively, lists of dicts or empty (None: what "
                "'sections:' with its list lines lost decodes to)"]
 
@@ -236,6 +236,23 @@ def dict_attr_record_owner(new, fault, fmt):
                             target = i
                 break
             pos += len(ln) + 1
+    elif kind == "subst":
+        # the replacing text stays one plain scalar (no YAML / JSON syntax of its own)
+        if re.match(r"^[A-Za-z0-9.:()-]*$", fault["text"]) and ": " not in fault["text"] and \
+                not fault["text"].startswith("-") and (fmt == "json" or fault["text"]):
+            pos = 0
+            for i, ln in enumerate(lines):
+                if pos <= fault["off"] < pos + len(ln):
+                    m = pat.match(ln)
+                    if m:
+                        a, b = m.span(3)
+                        if ln[a:a + 1] in (b'"', b"'"):
+                            a, b = a + 1, b - 1
+                        if pos + a <= fault["off"] and fault["end"] <= pos + b and \
+                                (fmt == "yaml" or ln[m.start(3):m.start(3) + 1] == b'"'):
+                            target = i
+                    break
+                pos += len(ln) + 1
     elif kind in ("drop", "dup"):
         # a YAML line carrying the '- ' of its list item is structural: without it the following
         # keys fall into the previous item
@@ -311,7 +328,11 @@ ATTR_LINE = re.compile(rb"^\s*<(value|unit|uncertainty|definition|reference|valu
 
 
 def shaped(obj):
-    if not isinstance(obj, dict) or not isinstance(obj.get("Document"), dict):
+    if not isinstance(obj, dict) or "Document" not in obj:
+        return False
+    if obj["Document"] is None:
+        return True         # 'Document:' with nothing behind it: an empty Document
+    if not isinstance(obj["Document"], dict):
         return False
 
     def secs_ok(lst):
@@ -348,7 +369,23 @@ ROOT_SHAPES = {
 }
 
 
+DICT_ROOTS = {
+    # small JSON / YAML files as they are left when the lines below a key are lost
+    "yaml-document-empty": ("yaml", "Document:\nodml-version: '1.1'\n"),
+    "yaml-document-map": ("yaml", "Document: {}\nodml-version: '1.1'\n"),
+    "yaml-sections-empty": ("yaml", "Document:\n  author: me\n  sections:\nodml-version: '1.1'\n"),
+    "yaml-properties-empty": ("yaml", "Document:\n  sections:\n  - name: s\n    type: t\n    properties:\n"
+                                      "odml-version: '1.1'\n"),
+    "yaml-version-float": ("yaml", "Document:\n  author: me\nodml-version: 1.1\n"),
+    "json-document-null": ("json", '{"Document": null, "odml-version": "1.1"}'),
+    "json-document-map": ("json", '{"Document": {}, "odml-version": "1.1"}'),
+    "json-sections-null": ("json", '{"Document": {"sections": null}, "odml-version": "1.1"}'),
+}
+
+
 def shape_bytes(shape):
+    if shape["kind"] == "dictroot":
+        return DICT_ROOTS[shape["depth"]][1].encode()
     if shape["kind"] == "root":
         body = "<section><name>s</name><type>t</type><property><name>p</name><value>1</value>" \
                "</property></section>"
@@ -493,6 +530,10 @@ def run_case(case):
                 ("ODMLReader.from_string", False,
                  lambda: ODMLReader("XML", show_warnings=False).from_string(damaged)),
                 ("odml.load", True, lambda: odml.load(path, "xml", show_warnings=False)),
+                # the defaults: the reader validates what it has read and prints the issues
+                ("odml.load(defaults)", True, lambda: odml.load(path, "xml")),
+                ("ODMLReader.from_string(defaults)", False,
+                 lambda: ODMLReader("XML").from_string(damaged)),
             ]
             # from_file also takes file like objects: text mode, binary mode, and one whose .name is
             # a descriptor number (os.fdopen / tempfile.TemporaryFile)
@@ -604,6 +645,9 @@ def run_case(case):
                 ("ODMLReader.from_string", False,
                  lambda: ODMLReader(fmt.upper(), show_warnings=False).from_string(text)),
                 ("odml.load", fmt == "yaml", lambda: odml.load(path, fmt, show_warnings=False)),
+                ("odml.load(defaults)", fmt == "yaml", lambda: odml.load(path, fmt)),
+                ("ODMLReader.from_string(defaults)", False,
+                 lambda: ODMLReader(fmt.upper()).from_string(text)),
             ]
             lenient_doc = None
             for name, lenient, fn in entries:
@@ -706,6 +750,16 @@ def attr_record_owner(new, fault):
                         if ch not in (0x3c, 0x3e, 0x26) and 0x20 <= ch < 0x7f:
                             target = i
                 break
+    elif kind == "subst":
+        for i, st in enumerate(starts):
+            if st <= fault["off"] < st + len(lines[i]):
+                if ATTR_LINE.match(lines[i]):
+                    a = lines[i].find(b">") + 1
+                    b = lines[i].rfind(b"</")
+                    if st + a <= fault["off"] and fault["end"] <= st + b and \
+                            "<" not in fault["text"] and "&" not in fault["text"]:
+                        target = i
+                break
     elif kind in ("drop", "dup"):
         if fault["l2"] - fault["l1"] == 1 and fault["l1"] < len(lines) and \
                 ATTR_LINE.match(lines[fault["l1"]]):
@@ -758,6 +812,10 @@ def generate_case(run_seed, tier=None):
             {"kind": "root", "depth": rng.choice(sorted(ROOT_SHAPES))}
         case["faults"] = [] if rng.random() < 0.7 else "generate"
         case["kinds"] = ["bitflip", "truncate"]
+        if rng.random() < 0.3:
+            name = rng.choice(sorted(DICT_ROOTS))
+            case["fmt"] = DICT_ROOTS[name][0]
+            case["shape"] = {"kind": "dictroot", "depth": name}
     return case
 
 
